@@ -217,3 +217,126 @@ def run_real_solve(script, cfg, timeout_s=10):
         if out["better_status"] == "sat":
             out["better_value"] = value_of(chk.model(), target)
     return out
+
+
+# ------------------------------------------------------------------------------ adversarial, consistent oracle
+class WorstFirstSolver:
+    """A z3.Solver stand-in that keeps a real z3.Solver underneath and answers every check() truthfully, but always
+    with the admissible model that is WORST for the objective (any model is a legitimate answer of an SMT solver, so
+    this is z3's contract, with the nondeterminism resolved against the optimiser).  Lets the search reach the exits
+    of the incremental loop that the default model of z3 rarely reaches (declared bound met, several iterations)."""
+
+    def __init__(self, target, is_min, log):
+        self.inner = z3.Solver()
+        self.inner.set("timeout", 10000)
+        self.target, self.is_min, self.log = target, is_min, log
+        self._model = None
+
+    def add(self, *a):
+        self.inner.add(*a)
+
+    def assert_and_track(self, a, p):
+        self.inner.assert_and_track(a, p)
+
+    def assertions(self):
+        return self.inner.assertions()
+
+    def push(self):
+        self.inner.push()
+
+    def pop(self):
+        self.inner.pop()
+
+    def num_scopes(self):
+        return self.inner.num_scopes()
+
+    def set(self, *a, **k):
+        pass
+
+    def check(self):
+        r = self.inner.check()
+        if r != z3.sat:
+            self.log.append(str(r))
+            return r
+        o = z3.Optimize()
+        o.set("timeout", 10000)
+        o.add(self.inner.assertions())
+        h = o.maximize(self.target) if self.is_min else o.minimize(self.target)
+        if o.check() == z3.sat and z3.is_int_value(h.value()):
+            self._model = o.model()
+        else:
+            self._model = self.inner.model()
+        self.log.append(f"sat {self._model.eval(self.target, model_completion=True)}")
+        return z3.sat
+
+    def model(self):
+        return self._model
+
+    def reason_unknown(self):
+        return self.inner.reason_unknown()
+
+    def unsat_core(self):
+        return self.inner.unsat_core()
+
+    def statistics(self):
+        return self.inner.statistics()
+
+    def to_smt2(self):
+        return self.inner.to_smt2()
+
+    def sexpr(self):
+        return self.inner.sexpr()
+
+
+def adversarial_incremental_solve(script, extra_cfg=None):
+    """solve with the real incremental optimiser against the worst-first oracle; returns dict(result, value,
+    better_value?, answers)"""
+    import types
+    import processscheduler.solver as ps_solver
+    real = pslib.Real()
+    real.run(script)
+    out = {}
+    setup = objective_setup(real, {"optimizer": "incremental"}, script)
+    if real.problem is None or setup is None:
+        return None
+    log = []
+
+    class Proxy(types.ModuleType):
+        def __getattr__(self, n):
+            if n in ("Solver",):
+                return lambda *a, **k: WorstFirstSolver(box["target"], box["is_min"], log)
+            if n == "SolverFor":
+                return lambda *a, **k: WorstFirstSolver(box["target"], box["is_min"], log)
+            return getattr(z3, n)
+    box = {"target": setup[0], "is_min": setup[1]}
+    old = ps_solver.z3
+    ps_solver.z3 = Proxy("z3proxy")
+    try:
+        with silent():
+            s = ps.SchedulingSolver(problem=real.problem, max_time=30, optimizer="incremental", **(extra_cfg or {}))
+            s.initialize()
+            # several objectives: the target is the equivalent objective built by initialize
+            st2 = objective_setup(real, {"optimizer": "incremental"}, script)
+            try:
+                sol = s.solve()
+            except Exception as e:  # noqa: BLE001
+                out["raised"] = f"{type(e).__name__}: {e}"
+                return out
+    finally:
+        ps_solver.z3 = old
+    out["result"] = bool(sol)
+    out["answers"] = log[:40]
+    if not sol:
+        return out
+    target, is_min = st2
+    v = value_of(s._model, target)
+    out["value"] = v
+    chk = z3.Solver()
+    chk.set("timeout", 10000)
+    chk.add(list(s._solver.assertions()))
+    chk.add(target < v if is_min else target > v)
+    r = chk.check()
+    out["better_status"] = str(r)
+    if r == z3.sat:
+        out["better_value"] = value_of(chk.model(), target)
+    return out
